@@ -244,6 +244,21 @@ fn handle(req: &Value, st: &mut State) -> Value {
         out.insert("parse".into(), parse_to_value(code, file, want_ast));
         return Value::Object(out);
     }
+    if op == "logger" {
+        // what Rewriter.setLogger does to the process: install the crate's TracerLogger once (with a sink
+        // instead of the JS callback, which only exists under wasm) and set the process-wide maximum level
+        let level = req.get("level").and_then(|c| c.as_str()).unwrap_or("ERROR");
+        static LOGGER_INSTALLED: std::sync::atomic::AtomicBool = std::sync::atomic::AtomicBool::new(false);
+        if !LOGGER_INSTALLED.swap(true, std::sync::atomic::Ordering::SeqCst) {
+            fn sink(_level: &str, _msg: String) {}
+            let _ = log::set_boxed_logger(Box::new(crate::tracer_logger::TracerLogger::new(&sink)));
+        }
+        use std::str::FromStr;
+        log::set_max_level(log::LevelFilter::from_str(level).unwrap_or(log::max_level()));
+        out.insert("status".into(), Value::String("ok".into()));
+        out.insert("maxLevel".into(), Value::String(log::max_level().to_string()));
+        return Value::Object(out);
+    }
     if op == "config" {
         let cfg_json = req.get("config").cloned().unwrap_or(Value::Null);
         let (cfg, deser_ok) = config_from_json(&cfg_json);
